@@ -1,5 +1,9 @@
 import TypVerif.Drv.Proto
 import TypVerif.Drv.C13
+import TypVerif.Drv.C09
+import TypVerif.Drv.C17
+import TypVerif.Drv.C18
+import TypVerif.Drv.C19
 import TypVerif.Drv.C08
 import TypVerif.Drv.C11
 import TypVerif.Drv.C20
@@ -23,6 +27,11 @@ open TypVerif.Proto
 
 def judges : List (String × Judge) := [
   ("C13", TypVerif.Drv.C13.judge),
+  ("C09", TypVerif.Drv.C09.judge),
+  ("C17", TypVerif.Drv.C17.judge),
+  ("C18", TypVerif.Drv.C18.judge),
+  ("C19", TypVerif.Drv.C19.judge),
+  ("C09ref", TypVerif.Drv.C09.judgeRef),
   ("C08", TypVerif.Drv.C08.judge),
   ("C11", TypVerif.Drv.C11.judge),
   ("C20", TypVerif.Drv.C20.judge),
@@ -66,7 +75,10 @@ partial def loop (j : Judge) (h : IO.FS.Stream) (out : IO.FS.Stream) (st : j.σ)
     let acc := { acc with lines := acc.lines + 1, tags := tags }
     let specOk := match o.spec with | some s => s == impl | none => true
     let modelOk := o.model == impl
-    let internalBad := match o.spec with | some s => s != o.model | none => false
+    -- event-trace judges (DESIGN §4C): `violated:*` from the specification predicate is a counterexample whatever the
+    -- model says; `rejected:*` from the model with the specification satisfied is a correspondence break
+    let traceStyle := o.model.startsWith "rejected:" || (match o.spec with | some s => s.startsWith "violated:" | none => false)
+    let internalBad := !traceStyle && (match o.spec with | some s => s != o.model | none => false)
     if internalBad then
       out.putStrLn s!"LINE {lineNo} int model={o.model} spec={o.spec.getD "-"} impl={impl}"
       loop j h out st' { acc with internal := acc.internal + 1 } (lineNo + 1)
